@@ -50,6 +50,11 @@ class Ctx:
         os.makedirs(self.workdir, exist_ok=True)
         self.mdl = os.path.join(CACHE, "ocaml", "mdl")
         self.harness_bin = os.path.join(CACHE, TARGET, "debug", "verif_harness")
+        self.release_bin = os.path.join(CACHE, TARGET, "release", "verif_harness")
+        self.release_ok = False      # set by ./check when the optimised build of the harness exists
+        self.profile_diffs = []      # (case, debug output, release output): the two builds of the implementation disagree
+        self.profile_cases = 0
+        self.marker_fails = []       # violations the harness found by its own cross-checks (see marker_failures)
         self.tables_info = None
         self.table_failures = {}    # Tables.v section -> why it could not be obtained (scoped to this property in finish)
         self.coq_files = []         # the property's COQ_FILES (set by ./check)
@@ -77,9 +82,21 @@ class Ctx:
             )
         return out
 
-    def run_impl(self, lines, harness_bin=None):
+    def run_impl(self, lines, harness_bin=None, deterministic=True):
+        """Run the cases through the harness (debug build of the implementation).  Deterministic case lists are also run
+        through the optimised build (no debug assertions, no overflow checks): code gated on the build profile, or arithmetic
+        that only wraps silently there, must not change any answer."""
         self.kinds |= {l.split(" ", 1)[0] for l in lines if l}
-        return self._run(harness_bin or self.harness_bin, lines, "impl")
+        out = self._run(harness_bin or self.harness_bin, lines, "impl")
+        if len(self.marker_fails) < 50:
+            self.marker_fails += marker_failures([l for l in lines if l], out)[:50]
+        if harness_bin is None and deterministic and self.release_ok and os.path.exists(self.release_bin):
+            rel = self._run(self.release_bin, lines, "implrel")
+            self.profile_cases += len(lines)
+            for c, a, b_ in zip([l for l in lines if l], out, rel):
+                if a != b_:
+                    self.profile_diffs.append((c, a, b_))
+        return out
 
     def run_model(self, lines):
         self.kinds |= {l.split(" ", 1)[0] for l in lines if l}
@@ -448,6 +465,25 @@ class Failure:
         self.extra = extra or {}
 
 
+def marker_failures(cases, impl):
+    """The harness cross-checks some things itself and reports them inside the answer (possibly hex-encoded with it):
+    WIRE-DIFFERS (what reaches the wire depends on the connection flavour or on how many bytes the transport takes per write),
+    INCONSISTENT (two constructors that must agree do not).  Each is a violation with the case as the failing input."""
+    import re as _re
+    out = []
+    for c, o in zip(cases, impl):
+        for m in ("WIRE-DIFFERS", "INCONSISTENT"):
+            hm = m.encode().hex()
+            if m in o:
+                out.append(Failure(c, f"harness cross-check {o[o.index(m):][:900]}"))
+                break
+            if hm in o:
+                run = _re.search(hm + "[0-9a-f]*", o).group(0)
+                out.append(Failure(c, "harness cross-check " + bytes.fromhex(run[:len(run) // 2 * 2]).decode(errors="replace")[:900]))
+                break
+    return out
+
+
 def write_replay(ctx, name, payload):
     # runs against a scratch copy of the repository (VERIF_REPO) never touch the committed evidence/replays
     d = os.path.join(VERIF, "replays") if TARGET == "target" else os.path.join(CACHE, "alt_replays")
@@ -462,6 +498,15 @@ def finish(ctx, *, evaluations, distinct_nontrivial, rule, samples, distribution
            disagreements, extra_cov=None, exhaustive=False):
     """Decide the verdict, print VIOLATION / KNOWN-FINDING lines, write evidence, return exit code."""
     scope_table_failures(ctx)
+    oracle_failures = list(oracle_failures)
+    seen_cases = {f.case for f in oracle_failures}
+    oracle_failures += [f for f in ctx.marker_fails if f.case not in seen_cases]
+    for c, a, b_ in ctx.profile_diffs[:20]:
+        oracle_failures.append(Failure(c, "the optimised (release) build of the implementation answers differently from the debug build on this "
+                                          f"input, so one of them breaks the property:\n  debug  : {a[:700]}\n  release: {b_[:700]}", extra={"profile": "release"}))
+    if ctx.profile_cases:
+        distribution = dict(distribution)
+        distribution["also_run_on_release_build"] = ctx.profile_cases
     known = [k for k in load_known() if k["property"] == ctx.prop and k["status"] == "known"]
     known_classes = {k["class"]: k for k in known}
     new_fail = [f for f in oracle_failures if f.klass not in known_classes]
